@@ -338,6 +338,12 @@ def finish(ctx, verdicts, obs_by_id=None, *, evaluations, rule, nontrivial_keys,
            exhaustive=False, assumptions=(), extra=None, level="model_checking"):
     """Write evidence, print KNOWN-FINDING / VIOLATION lines, return exit code."""
     known = load_known(ctx.prop)
+    rid = getattr(ctx, "replay_id", None)
+    if rid is not None:
+        # --replay <file>: the whole check was re-executed against the current tree; report on that record only
+        verdicts = [v for v in verdicts if v.get("id") == rid]
+        if not verdicts:
+            raise Inconclusive("replay: record %r was not produced by this run (use the tier and seed recorded in the replay file)" % rid)
     bad = [v for v in verdicts if not v.get("ok")]
     seen_known = {}
     violations = []
@@ -349,7 +355,7 @@ def finish(ctx, verdicts, obs_by_id=None, *, evaluations, rule, nontrivial_keys,
             violations.append(v)
     for sig, (k, vs) in sorted(seen_known.items()):
         print("KNOWN-FINDING: property=%s %s [%s; %d occurrence(s)]" % (ctx.prop, k["what"], sig, len(vs)))
-    outroot = VERIF if REPO == "/repo" else os.path.join(WORKROOT, "alt")   # never clobber evidence when trying another tree
+    outroot = VERIF if (REPO == "/repo" and rid is None) else os.path.join(WORKROOT, "alt")   # never clobber evidence when trying another tree
     replay_dir = os.path.join(outroot, "replay")
     shown = {}
     for v in violations:
@@ -361,7 +367,7 @@ def finish(ctx, verdicts, obs_by_id=None, *, evaluations, rule, nontrivial_keys,
         os.makedirs(replay_dir, exist_ok=True)
         rid = re.sub(r"[^A-Za-z0-9_.-]", "_", "%s-%s" % (ctx.prop, hashlib.sha1((sig + str(v.get("id"))).encode()).hexdigest()[:10]))
         rp = os.path.join(replay_dir, rid + ".json")
-        rec = {"property": ctx.prop, "verdict": v}
+        rec = {"property": ctx.prop, "tier": ctx.tier, "seed": ctx.seed, "verdict": v}
         if obs_by_id is not None and v.get("id") in obs_by_id:
             rec["observation"] = obs_by_id[v["id"]]
         json.dump(rec, open(rp, "w"), indent=1)
@@ -425,8 +431,15 @@ def main(run):
     ap.add_argument("--keep", action="store_true")
     ap.add_argument("--replay")
     a = ap.parse_args()
+    replay_id = None
+    if a.replay:
+        rec = json.load(open(a.replay))
+        replay_id = rec["verdict"]["id"]
+        a.tier, a.seed = rec.get("tier", a.tier), rec.get("seed", a.seed)
     ctx = Ctx(a.prop, a.tier, a.seed, keep=a.keep)
     ctx.replay = a.replay
+    if replay_id is not None:
+        ctx.replay_id = replay_id
     try:
         rc = run(ctx)
     except Inconclusive as e:
